@@ -6,7 +6,7 @@ SPEC = dict(
     proof_files=['Proofs/SensorFloat.v', 'Proofs/Sensor.v', 'Proofs/SensorLinks.v', 'Proofs/LeafTie.v', 'Drv/Sensor.v'],
     tie_vo=['Proofs/LeafTie.vo'],
     drivers=[dict(name='sensor', drv_mod='Drv.Sensor', drv_file='Drv/Sensor.v', shard=60,
-                  args={'quick': ['n=600', 'hostile=60', 'monitor=30'], 'thorough': ['n=6000', 'hostile=600', 'monitor=400']},
+                  args={'quick': ['n=600', 'hostile=60', 'monitor=30', 'startup=40'], 'thorough': ['n=6000', 'hostile=600', 'monitor=400', 'startup=600']},
                   timeout={'quick': 600, 'thorough': 3000})],
     rule='seeded random cases: backend in {hwmon, file, cmd} (real HwmonSensor/FileSensor/CmdSensor on temp files / root-owned 0755 scripts), '
          'window n in 1..50 (hostile stream also 1e6 and 2^40), initial average from the real initializeSensors (valid or failing first read) '
@@ -21,6 +21,11 @@ SPEC = dict(
          'good run, optionally a second streak), window 1..10; the hook runs once per poll inside the monitor goroutine and records the step served and '
          'GetMovingAvg() at that moment, so the exact per-poll sequence is known whatever the timing (no assertion depends on how many ticks fire); the '
          'case is judged bit-exactly against the model on the sequence actually served and by the same hull/skip/contraction observer. '
+         'Start-up stream (tag startup, drv_sensor_startup.go): per case one hwmon, one file and one cmd sensor are created by ONE call of the real '
+         'internal.InitializeObjects() = hwmon.GetChips() on a fake sysfs chip (gosensors stand-in, VERIF_HWMON_ROOT) + initializeSensors with its start-up read '
+         '(valid or failing) + initializeCurves/initializeFans; the chip exposes tempN_input and none / max / min / crit / max+min(+crit) attributes, optional label, '
+         'and a decoy temp feature with its own range before or after the configured index; readings lie below / inside / above the advertised range with constant '
+         'runs; then every sensor is polled through the real updateSensor and judged like a direct case (the model is unchanged: the value is what the file says). '
          'Non-trivial = at least two distinct averages in the observed sequence; distinct = distinct Coq case terms.',
     assumptions=[
         'reading classes: strconv.Atoi / strconv.ParseFloat / os.ReadFile / os/exec are not modelled; the model starts from the class '
